@@ -120,13 +120,13 @@ type Exec struct {
 	onces       map[*Value]bool
 	nmap        int
 	intMode     bool
-	maxGap      int             // most instructions executed between two signs of progress
-	progressAt  int             // e.steps at the last sign of progress (see livelock)
+	maxGap      int                 // most instructions executed between two signs of progress
+	progressAt  int                 // e.steps at the last sign of progress (see livelock)
 	goTimers    map[*Value]*goTimer // time.Timer structs made by NewTimer / AfterFunc
-	blsInvalid  map[string]bool // public key bytes the harness declared undecodable
-	blsVerifies []*Term         // results of the BLS signature verifications made on this path (symbolic)
-	bigHuge     int             // big.Int values outside the modelled range met so far
-	fpErrN      int             // fresh rounding-error variables of the relaxed float64 model (Int mode)
+	blsInvalid  map[string]bool     // public key bytes the harness declared undecodable
+	blsVerifies []*Term             // results of the BLS signature verifications made on this path (symbolic)
+	bigHuge     int                 // big.Int values outside the modelled range met so far
+	fpErrN      int                 // fresh rounding-error variables of the relaxed float64 model (Int mode)
 
 	opts ExecOpts
 
